@@ -333,14 +333,22 @@ pub fn cb_matches(cb: &Cb, e: &ExpCb) -> Result<(), (String, String)> {
             if id != gid {
                 return Err(("execute-id-altered".into(), format!("on_execute got id {} but the client executed {}", gid, id)));
             }
-            if cb.params_consumed.is_some() {
-                // the shim did not walk the list this time: nothing to compare but the id
-                return Ok(());
+            // the positions this execution's callback looked at (all of them unless the script said otherwise)
+            let n = params.len();
+            let want: Vec<usize> = match cb.params_consumed {
+                None => (0..n).collect(),
+                Some("ignored") | Some("counted") => return Ok(()),
+                Some("first") => (0..n.min(1)).collect(),
+                Some("nth1") => (1..n.max(1).min(2)).collect(),
+                Some("skip1") => (1..n.max(1)).collect(),
+                Some("step2") => (0..n).step_by(2).collect(),
+                Some("last") => (n.saturating_sub(1)..n).collect(),
+                Some(_) => (2..n.max(2)).collect(),
+            };
+            if want.len() != gp.len() {
+                return Err(("param-count".into(), format!("on_execute saw {} parameters{}, statement declares {} (positions looked at: {:?})", gp.len(), cb.params_consumed.map(|m| format!(" through `{}`", m)).unwrap_or_default(), n, want)));
             }
-            if params.len() != gp.len() {
-                return Err(("param-count".into(), format!("on_execute saw {} parameters, statement declares {}", gp.len(), params.len())));
-            }
-            for (i, (e, g)) in params.iter().zip(gp.iter()).enumerate() {
+            for (i, (e, g)) in want.iter().map(|&k| (k, &params[k])).zip(gp.iter()).map(|((k, e), g)| (k, (e, g))) {
                 if e.typ != g.coltype {
                     return Err(("param-type".into(), format!("parameter {}: coltype 0x{:02x}, client bound 0x{:02x}", i, g.coltype, e.typ)));
                 }
